@@ -526,11 +526,32 @@ func (uconn *UConn) ApplyConfig() error {
 		uconn.HandshakeState.Hello.KeyShares = nil
 	}
 	uconn.certCompressionAlgs = nil
+	sendsSupportedVersions := false
 	for _, ext := range uconn.Extensions {
+		if _, ok := ext.(*SupportedVersionsExtension); ok {
+			sendsSupportedVersions = true
+		}
 		err := ext.writeToUConn(uconn)
 		if err != nil {
 			return err
 		}
+	}
+	if hello := uconn.HandshakeState.Hello; hello != nil && !sendsSupportedVersions {
+		// Hello.SupportedVersions is the list of versions the handshake treats as
+		// offered. Without a SupportedVersionsExtension the ClientHello offers its
+		// legacy version and below only (RFC 8446, Section 4.2.1), whatever TLSVersMax
+		// the spec declares and whatever list an extension that has since been
+		// removed left in this field.
+		var offered []uint16
+		for _, v := range uconn.config.supportedVersions(roleClient) {
+			if v <= hello.Vers {
+				offered = append(offered, v)
+			}
+		}
+		if len(offered) == 0 {
+			return errors.New("tls: the ClientHello has no supported_versions extension and its legacy version is below every version the configuration accepts")
+		}
+		hello.SupportedVersions = offered
 	}
 	return nil
 }
